@@ -42,7 +42,24 @@ type mev struct {
 	loNs     int64
 	hiNs     int64
 	optional bool
+	stale    bool // expiry of a timer that had been stopped (only used when diagnosing)
 	desc     string
+}
+
+// Deviations of the client from the statement that were found with this
+// model. When the strict search fails, the search is repeated tolerating
+// them, and a contradiction that disappears is reported under the name of the
+// deviation instead of the generic oracle.
+const (
+	relaxStaleTimer = 1 << iota // a watch-expiry timer fires although it was stopped
+	relaxForeignExpiry          // expiry reported by a server that is not in use is honoured
+	relaxInactiveFail           // failure of a server other than the active one triggers fallback
+)
+
+var relaxNames = map[int]string{
+	relaxStaleTimer:    "expiry_after_timer_stopped",
+	relaxForeignExpiry: "expiry_from_server_not_in_use",
+	relaxInactiveFail:  "fallback_on_inactive_server_failure",
 }
 
 const (
@@ -113,6 +130,7 @@ type model struct {
 	evs      []*mev
 	closes   []*ftransport // transports closed before client Close, in order
 	nsrv     int
+	relax    int // diagnosis only: behaviours of known defects the model tolerates
 	budget   int
 	memo     map[string]bool
 	best     int
@@ -132,7 +150,7 @@ func (wd *world) nextRecvEnter(tr *ftransport, after uint64) (uint64, int64) {
 	return bs, bn
 }
 
-func (wd *world) buildEvents() []*mev {
+func (wd *world) buildEvents(stale bool) []*mev {
 	var evs []*mev
 	for _, wt := range wd.watchers {
 		if wt.wsSeq == 0 {
@@ -188,19 +206,19 @@ func (wd *world) buildEvents() []*mev {
 							continue
 						}
 						fire := q.ns + wd.s.ExpiryNs
-						if (st.failSeq != 0 && st.failNs < fire) || (tr.closeSeq != 0 && tr.closeNs < fire) || fire > wd.quietNs {
+						if fire > wd.quietNs {
 							continue
 						}
-						cancelled := false
+						cancelled := (st.failSeq != 0 && st.failNs < fire) || (tr.closeSeq != 0 && tr.closeNs < fire)
 						for _, it2 := range st.items {
 							if it2.resp != nil && it2.resp.kind == "resp" && it2.resp.typ == typ && it2.resp.ns < fire && it2.resp.seq > q.seq && respNames(it2.resp)[n] {
 								cancelled = true
 							}
 						}
-						if cancelled {
+						if cancelled && !stale {
 							continue
 						}
-						evs = append(evs, &mev{kind: evExpiry, tr: tr, typ: typ, name: n, loNs: fire, hiNs: fire, optional: true, desc: fmt.Sprintf("expiry %s typ=%d %s @%d", tr.name(), typ, n, fire)})
+						evs = append(evs, &mev{kind: evExpiry, tr: tr, typ: typ, name: n, loNs: fire, hiNs: fire, optional: true, stale: cancelled, desc: fmt.Sprintf("expiry %s typ=%d %s @%d", tr.name(), typ, n, fire)})
 					}
 					prev = cur
 				}
@@ -490,7 +508,7 @@ func (m *model) apply(s0 *mstate, ev *mev) []*mstate {
 				may = true // no cached value, but an answer was seen: the statement allows either
 			}
 		}
-		canFall := j == s.active && s.active+1 < m.nsrv
+		canFall := (j == s.active || (j < s.active && m.relax&relaxInactiveFail != 0)) && s.active+1 < m.nsrv
 		if canFall && (must || may) {
 			f := s.clone()
 			if m.emitBuild(f, f.active+1, ev) {
@@ -509,7 +527,10 @@ func (m *model) apply(s0 *mstate, ev *mev) []*mstate {
 	case evExpiry:
 		out := []*mstate{s0.clone()} // the timer may have been stopped
 		r := s.res[mkey{ev.typ, ev.name}]
-		if r == nil || !m.alive(s, ev.tr) {
+		// the timer's report counts if its server is in use: it has a channel
+		// and is not below the active one (as for responses and failures the
+		// client tells servers apart, not channel instances)
+		if j := ev.tr.srv.idx; r == nil || s.active < 0 || ((s.gen[j] < 0 || j > s.active) && m.relax&relaxForeignExpiry == 0) {
 			return out
 		}
 		r.has, r.val, r.tag, r.status, r.errTok = false, "", "", stNotExist, ""
@@ -580,11 +601,10 @@ func (m *model) search(s *mstate, done uint64) bool {
 	return false
 }
 
-// checkModel runs the search and reports the deepest contradiction.
-func (wd *world) checkModel() {
-	e := wd.e
-	m := &model{wd: wd, nsrv: len(wd.s.Servers), budget: 300000, memo: map[string]bool{}}
-	m.evs = wd.buildEvents()
+// runModel searches once; relax selects tolerated deviations.
+func (wd *world) runModel(relax int) *model {
+	m := &model{wd: wd, nsrv: len(wd.s.Servers), relax: relax, budget: 300000, memo: map[string]bool{}}
+	m.evs = wd.buildEvents(relax&relaxStaleTimer != 0)
 	sort.SliceStable(m.evs, func(i, j int) bool {
 		a, b := m.evs[i], m.evs[j]
 		if a.loNs != b.loNs {
@@ -592,32 +612,65 @@ func (wd *world) checkModel() {
 		}
 		return a.loSeq < b.loSeq
 	})
-	if len(m.evs) > 62 {
-		e.Probe("model_too_many_events")
-		return
-	}
 	for _, tr := range wd.transports {
 		if tr.closeSeq != 0 && tr.closeSeq < wd.closeSeq {
 			m.closes = append(m.closes, tr)
 		}
 	}
 	sort.Slice(m.closes, func(i, j int) bool { return m.closes[i].closeSeq < m.closes[j].closeSeq })
-	s := &mstate{res: map[mkey]*mres{}, active: -1, gen: [3]int{-1, -1, -1}, pos: make([]int, len(wd.watchers))}
+	return m
+}
+
+func (m *model) run() (ok, decided bool) {
+	if len(m.evs) > 62 {
+		return false, false
+	}
+	s := &mstate{res: map[mkey]*mres{}, active: -1, gen: [3]int{-1, -1, -1}, pos: make([]int, len(m.wd.watchers))}
 	if m.search(s, 0) {
-		e.Probe("model_explained")
+		return true, true
+	}
+	return false, m.budget > 0
+}
+
+// checkModel runs the search and reports the deepest contradiction.
+func (wd *world) checkModel() {
+	e := wd.e
+	m := wd.runModel(0)
+	ok, decided := m.run()
+	if !decided {
+		e.Probe("model_undecided")
 		return
 	}
-	if m.budget <= 0 {
-		e.Probe("model_budget_exceeded")
+	if ok {
+		e.Probe("model_explained")
 		return
 	}
 	var evd []string
 	for _, x := range m.evs {
 		evd = append(evd, x.desc)
 	}
+	detail := fmt.Sprintf("closest attempt: %s   [events: %s]", m.bestMsg, strings.Join(evd, "; "))
+	// diagnosis: does tolerating a known deviation explain the run?
+	for _, relax := range []int{1, 2, 4, 3, 5, 6, 7} {
+		if relax&relaxInactiveFail != 0 && len(wd.s.Servers) < 3 {
+			continue
+		}
+		if relax&relaxForeignExpiry != 0 && len(wd.s.Servers) < 2 {
+			continue
+		}
+		if ok, _ := wd.runModel(relax).run(); !ok {
+			continue
+		}
+		for _, bit := range []int{relaxStaleTimer, relaxForeignExpiry, relaxInactiveFail} {
+			if relax&bit != 0 {
+				e.Violate(relaxNames[bit], "the observations have no explanation under the model, but they have one if the client is allowed the deviation %q; strict model: %s", relaxNames[bit], detail)
+			}
+		}
+		return
+	}
 	oracle := "watcher_history"
 	if m.bestKind == "fb" {
 		oracle = "fallback_model"
 	}
-	e.Violate(oracle, "no order of the events explains the observations; closest attempt: %s   [events: %s]", m.bestMsg, strings.Join(evd, "; "))
+	e.Violate(oracle, "no order of the events explains the observations; %s", detail)
 }
